@@ -312,8 +312,12 @@ class DataModels:
                 return to_int(l.n) == to_int(r.n) if (is_sym(l.n) or is_sym(r.n)) else l.n == r.n
         i = z3.Int('i!beq%d' % I.ctx.counter.setdefault('beq', 0))
         I.ctx.counter['beq'] += 1
-        return z3.And(to_int(l.n) == to_int(r.n),
-                      z3.ForAll([i], z3.Implies(z3.And(i >= 0, i < to_int(l.n)), l.at(i) == r.at(i))))
+        alleq = z3.ForAll([i], z3.Implies(z3.And(i >= 0, i < to_int(l.n)), l.at(i) == r.at(i)))
+        if is_sym(l.arr) and is_sym(r.arr) and l.arr.eq(r.arr):
+            # same array: equal offsets (or an empty view) is a special case of element-wise
+            # equality, so the disjunction is equivalent to alleq and easier to discharge
+            alleq = z3.Or(to_int(l.off) == to_int(r.off), to_int(l.n) == 0, alleq)
+        return z3.And(to_int(l.n) == to_int(r.n), alleq)
 
     def getslice(self, I, b, lo, hi, st, node=None):
         ln = line_of(node)
@@ -415,6 +419,13 @@ class DataModels:
                     k = zmin(n, avail)
             else:
                 k = zmin(n, avail)
+        # CPython: a read size beyond ssize_t raises OverflowError
+        if n is not None and not I.pure:
+            if is_sym(n):
+                if I.ctx.branch(to_int(n) >= 2 ** 63):
+                    raise PyExc('OverflowError', ln, 'read size does not fit in ssize_t')
+            elif n >= 2 ** 63:
+                raise PyExc('OverflowError', ln, 'read size does not fit in ssize_t')
         k = z3.simplify(to_int(k))
         out = SBytes(s.arr, s.pos, k)
         s.pos = z3.simplify(to_int(s.pos) + k)
@@ -446,6 +457,12 @@ class DataModels:
             if whence == 0:
                 raise PyExc('ValueError', ln, 'negative seek position')
             new = 0
+        # CPython: a position beyond the platform ssize_t raises OverflowError
+        if is_sym(new):
+            if not I.pure and I.ctx.branch(to_int(new) >= 2 ** 63):
+                raise PyExc('OverflowError', ln, 'seek position does not fit in ssize_t')
+        elif new >= 2 ** 63:
+            raise PyExc('OverflowError', ln, 'seek position does not fit in ssize_t')
         s.pos = new
         return new
 
